@@ -13,8 +13,10 @@ PID = "C23"
 THEOREM_MODULES = ["GuppyVerif.Props.C23"]
 DRIVER = "C23"
 RULE = (
-    "case = 1-3 generated modules (each binding a random subset of int/float/len and other names to sentinel objects, "
-    "at random positions among the function definitions; optionally star-importing guppylang.std.builtins) + a tree of "
+    "case = 1-3 generated modules; each of int/float/len is independently absent or bound, at a random position among the "
+    "function definitions, to: a sentinel object / a user function / a user class / the genuine builtin itself (via `from builtins "
+    "import x` or `x = builtins.x`) / another builtin (`int = float`) / an object that compares equal to the builtin but is not "
+    "identical; plus other names; optionally after star-importing guppylang.std.builtins; + a tree of "
     "`@guppy.comptime` functions: bodies probe all modules' int/float/len, call other comptime functions (traced later "
     "by the same compilation), start nested compilations of functions of any module from inside the traced body "
     "(dynamically nested mock_builtins, errors caught), and end normally / by raising (Python exception, ZeroDivisionError, "
@@ -50,6 +52,8 @@ UNMODELLED = [
 ]
 
 MOCKED = ("int", "float", "len")
+# what the user's module binds a shadowed name to
+BIND_KINDS = ["sentinel", "func", "class", "builtin_import", "builtin_import", "builtin_alias", "other_builtin", "equal"]
 HOOKNAME = "_VERIF_C23_HOOKS"
 
 # ----------------------------------------------------------------- abstract programs
@@ -77,9 +81,9 @@ def _gen_case(rng, depth):
     root = fn(depth)
     mods = []
     for j in range(K):
-        bound = [n for n in MOCKED if rng.random() < 0.45]
-        others = [f"user{k}" for k in range(rng.choice([0, 1, 2]))]
-        mods.append({"std": rng.random() < 0.12, "bind": bound + others, "seed": rng.randrange(1 << 30)})
+        bound = [[n, rng.choice(BIND_KINDS)] for n in MOCKED if rng.random() < 0.55]
+        others = [[f"user{k}", "sentinel"] for k in range(rng.choice([0, 1, 2]))]
+        mods.append({"std": rng.random() < 0.15, "bind": bound + others, "seed": rng.randrange(1 << 30)})
     return {"mods": mods, "root": root}
 
 
@@ -112,7 +116,7 @@ def _module_source(case, j):
 
     m = case["mods"][j]
     r = random.Random(m["seed"])
-    entries = [("bind", n) for n in m["bind"]] + [("def", f) for f in _fns(case["root"]) if f["mod"] == j]
+    entries = [("bind", b) for b in m["bind"]] + [("def", f) for f in _fns(case["root"]) if f["mod"] == j]
     r.shuffle(entries)
     H = HOOKNAME
     lines = ["from guppylang import guppy"]
@@ -121,7 +125,24 @@ def _module_source(case, j):
     lines += ["@guppy.declare", "def _decl() -> None: ...", ""]
     for kind, x in entries:
         if kind == "bind":
-            lines.append(f"{x} = {H}.sentinel({x!r})")
+            name, how = (x, "sentinel") if isinstance(x, str) else x  # old corpus entries: plain names
+            if how == "sentinel":
+                lines.append(f"{name} = {H}.sentinel({name!r})")
+            elif how == "func":
+                lines += [f"def {name}(*args):", "    return 0"]
+            elif how == "class":
+                lines += [f"class {name}:", "    pass"]
+            elif how == "builtin_import":
+                lines.append(f"from builtins import {name}")
+            elif how == "builtin_alias":
+                lines += ["import builtins as _py_builtins", f"{name} = _py_builtins.{name}"]
+            elif how == "other_builtin":
+                other = MOCKED[(MOCKED.index(name) + 1) % 3] if name in MOCKED else "abs"
+                lines += ["import builtins as _py_builtins", f"{name} = _py_builtins.{other}"]
+            elif how == "equal":
+                lines.append(f"{name} = {H}.equal_to_anything({name!r})")
+            else:
+                raise AssertionError(how)
         else:
             f = x
             lines += ["@guppy.comptime", f"def f{f['id']}() -> None:", f"    {H}.begin({f['id']})"]
@@ -160,6 +181,21 @@ class _Hooks:
             def __repr__(s):
                 return f"<user {name}>"
         return Sentinel()
+
+    def equal_to_anything(self, name):
+        class Eq:
+            def __eq__(s, other):
+                return True
+
+            def __ne__(s, other):
+                return False
+
+            def __hash__(s):
+                return 0
+
+            def __repr__(s):
+                return f"<equal-to-anything {name}>"
+        return Eq()
 
     def one(self):
         return 1
@@ -391,6 +427,10 @@ def _eval(ctx, cases, use_model=True):
         nt = _depth(case["root"]) >= 1 or _has_raise(case["root"])
         ends = sorted({f["end"].split(":")[0] for f in _fns(case["root"])})
         ctx.count(line, nontrivial=nt, kind=f"nest{min(_depth(case['root']), 3)}:" + "+".join(ends))
+        for m_ in case["mods"]:
+            for b in m_["bind"]:
+                if not isinstance(b, str) and b[0] in MOCKED:
+                    ctx.bump("bind:" + b[1])
         if real != orc:
             notes = [e[1] for e in H.events if e[0] == "note"]
             ctx.violation(
